@@ -54,10 +54,10 @@ PROPS["C03"] = dict(
 )
 PROPS["C07"] = dict(
     title="Output is well-formed, identity-unique, free of bookkeeping, and a fixpoint",
-    modules=["Kust.Props.C07"],
-    theorems=["Kust.C07.out_ids_unique", "Kust.C07.append_refuses_duplicate", "Kust.C07.out_has_kind_name", "Kust.C07.renaming_never_panics",
+    modules=["Kust.Props.C07", "Kust.Props.C13"],
+    theorems=["Kust.C13.emit_read_back", "Kust.C07.out_ids_unique", "Kust.C07.append_refuses_duplicate", "Kust.C07.out_has_kind_name", "Kust.C07.renaming_never_panics",
               "Kust.C07.strip_removes", "Kust.C07.strip_keeps", "Kust.C07.annotation_keys_covered", "Kust.C07.core_keys_stripped"],
-    components=["res.append", "res.layers"],
+    components=["res.append", "res.layers", "kio.emit"],
     oracle=True,
     n_corr={"quick": 3000, "thorough": 30000}, n_oracle={"quick": 300, "thorough": 4000},
     technique="Lean 4 proof (Append uniqueness invariant, named-resource invariant, stripped-key coverage by decide over regenerated tables) + correspondence + fixpoint/rebuild oracle on whole builds",
@@ -347,9 +347,9 @@ PROPS["C05"] = dict(
 PROPS["C13"] = dict(
     title="YAML streams round-trip through the kio readers/writers; package writes stay inside the package",
     modules=["Kust.Props.C13"],
-    theorems=["Kust.C13.untilNewline_spec", "Kust.C13.startsSep_spec", "Kust.C13.scan_flatten", "Kust.C13.split_lossless",
+    theorems=["Kust.C13.emit_read_back", "Kust.C13.scan_emit", "Kust.C13.scan_body", "Kust.C13.untilNewline_spec", "Kust.C13.startsSep_spec", "Kust.C13.scan_flatten", "Kust.C13.split_lossless",
               "Kust.C13.dotdot_stays", "Kust.C13.cleanSegs_base", "Kust.C13.pkg_write_confined", "Kust.C13.pkg_rejects_absolute", "Kust.C13.pkg_delete_confined"],
-    components=["kio.split", "kio.pkgpath"],
+    components=["kio.split", "kio.pkgpath", "kio.emit"],
     oracle=True,
     n_corr={"quick": 3000, "thorough": 40000}, n_oracle={"quick": 600, "thorough": 8000},
     technique="Lean 4 proof (document splitting is lossless for every byte stream; every path annotation the package writer accepts resolves below the package directory, absolute and climbing spellings are rejected) + Go/Lean correspondence of ByteReader's document splitting and LocalPackageWriter's path validation + round-trip oracle (data vs the YAML library's own stream decoder, comment multiset, byte-identical second trip, no reader annotation left, in-memory FS write set)",
